@@ -202,7 +202,17 @@ def run(rep, tier):
                     c = mh.default_cfg(kind='time', P=P, nsteps=2 * P + 1, maxiter=3, jac=False, restol=-1.0, dt=0.2, adaptive={'e_tol': tol, 'embedded_error_flavor': flavor}, real_estimate=True, restarting={'max_restarts': 3})
                     c.update(m)
                     real.append(c)
-    plan.append(('real embedded error estimators (standard / linearized flavour), canonical schedule', real, 0))
+    # node-parallel sweepers under the shipped Adaptivity (absolute and relative error): the estimate is formed from
+    # quantities that live on different node ranks
+    for kind, extra in (('nodes', {}), ('spacetime', {'P': 2})):
+        for M in (2, 3):
+            for rel in (False, True):
+                for tol in ((1e-3,) if tier == 'quick' else (1e-3, 1e-5)):
+                    for m in MODES[:2]:
+                        c = mh.default_cfg(kind=kind, M=M, QI='MIN', nsteps=4, maxiter=3, jac=False, restol=-1.0, dt=0.2, adaptive={'e_tol': tol, 'rel_error': rel}, real_estimate=True, restarting={'max_restarts': 3}, **extra)
+                        c.update(m)
+                        real.append(c)
+    plan.append(('real embedded error estimators (standard / linearized flavour; node-parallel sweepers with absolute / relative error), canonical schedule', real, 0))
     # (3) all schedules with <= 1 deviation on the base configurations (thorough: <= 2 on the smallest)
     sched = []
     for name in BASES:
